@@ -19,7 +19,7 @@ ASSUMPTIONS = ["Color.downgrade is trusted here for the expected colour after do
                "control segments are unstyled, as Console.control creates them",
                "segment texts contain no ESC / C0 control characters"]
 REQUIRED = ["mon.detected_terminal_phase", "mon.stream_decoded", "mon.char_compared", "mon.no_escape_when_colour_off", "mon.no_color",
-            "mon.not_terminal", "mon.shared_style", "mon.exhaustive_attr"]
+            "mon.not_terminal", "mon.shared_style", "mon.exhaustive_attr", "mon.derived_style", "mon.live_frame_under_print_style"]
 MIN_NONTRIVIAL = {"quick": 5000, "thorough": 200000}
 
 SYSTEMS = [None, "standard", "256", "truecolor", "windows"]
